@@ -112,3 +112,445 @@ Proof.
 Qed.
 
 End WithTable.
+
+(* ------------------------------------------------------------------ shape of printed text *)
+Definition starter (t : token) : bool :=
+  match t with
+  | TInt _ | TFloat _ | TStr _ | TBool _ | TIdent _ | TMinus | TLParen | TLBracket | TLBrace => true
+  | _ => false
+  end.
+
+Lemma wrap_cases : forall p l ts, wrap p l ts = ts \/ wrap p l ts = TLParen :: ts ++ [TRParen].
+Proof. intros. unfold wrap, paren. destruct (l <? p); auto. Qed.
+
+Lemma raw_hd : forall s, printable s = true -> exists t r, raw s = t :: r /\ starter t = true.
+Proof.
+  induction s; cbn [printable raw]; intros Hp; try discriminate.
+  - destruct c; try discriminate; cbn; eauto.
+  - eauto.
+  - apply andb_prop in Hp. destruct Hp as [_ Hp]. destruct (IHs Hp) as (t & r & E & St).
+    rewrite E. cbn. eauto.
+  - apply andb_prop in Hp. destruct Hp as [Hp _]. apply andb_prop in Hp. destruct Hp as [_ Hp].
+    destruct (IHs1 Hp) as (t & r & E & St).
+    destruct (wrap_cases lvl_atom (lvl s1) (raw s1)) as [W|W]; rewrite W; [rewrite E|]; cbn; eauto.
+  - destruct u; cbn; eauto.
+  - apply andb_prop in Hp. destruct Hp as [Hp _]. apply andb_prop in Hp. destruct Hp as [_ Hp].
+    destruct (IHs1 Hp) as (t & r & E & St).
+    destruct (wrap_cases (lp o) (lvl s1) (raw s1)) as [W|W]; rewrite W; [rewrite E|]; cbn; eauto.
+  - apply andb_prop in Hp. destruct Hp as [Hp _].
+    destruct (IHs1 Hp) as (t & r & E & St).
+    destruct (wrap_cases (lp OIn) (lvl s1) (raw s1)) as [W|W]; rewrite W; [rewrite E|]; cbn; eauto.
+  - repeat (apply andb_prop in Hp; destruct Hp as [Hp ?]).
+    destruct (IHs Hp) as (t & r & E & St).
+    destruct (wrap_cases (lp OIs) (lvl s) (raw s)) as [W|W]; rewrite W; [rewrite E|]; cbn; eauto.
+  - repeat (apply andb_prop in Hp; destruct Hp as [Hp ?]).
+    destruct (IHs Hp) as (t & r & E & St).
+    destruct (wrap_cases (lp OPipe) (lvl s) (raw s)) as [W|W]; rewrite W; [rewrite E|]; cbn; eauto.
+  - cbn. eauto.
+  - repeat (apply andb_prop in Hp; destruct Hp as [Hp ?]).
+    match goal with X : printable s2 = true |- _ => destruct (IHs2 X) as (t & r & E & St) end.
+    destruct (wrap_cases (S lvl_tern) (lvl s2) (raw s2)) as [W|W]; rewrite W; [rewrite E|]; cbn; eauto.
+  - unfold paren. cbn. eauto.
+Qed.
+
+(* ------------------------------------------------------------------ follow *)
+Lemma follow_closer : forall s t, closer t = true -> follow s t = true.
+Proof.
+  intros s t Hc. pose proof (closer_not_chain _ Hc) as Hn.
+  pose proof (chain_tok_lparen _ Hn) as Hl.
+  induction s; cbn [follow]; try reflexivity.
+  - rewrite Hn; reflexivity.
+  - rewrite Hn; reflexivity.
+  - destruct (is_chain s1); [rewrite Hn|]; reflexivity.
+  - rewrite (closer_refused _ _ Hc). cbn [andb].
+    destruct ((lvl s <? lvl_un u) || starts_unary (raw s)); auto.
+  - rewrite (closer_refused _ _ Hc). cbn [andb]. destruct (lvl s2 <? rp o); auto.
+  - rewrite (closer_refused _ _ Hc). cbn [andb]. destruct (lvl s2 <? rp OIn); auto.
+  - destruct kw; [rewrite Hl|]; reflexivity.
+  - destruct kw; [rewrite Hl|]; reflexivity.
+  - rewrite (closer_refused _ _ Hc). cbn [andb]. auto.
+Qed.
+
+Lemma rp_ge : forall o, lvl_bin o <= rp o.
+Proof. intros o. unfold rp. destruct (right_assoc o); lia. Qed.
+Lemma lp_ge : forall o, lvl_bin o <= lp o.
+Proof. intros o. unfold lp. destruct (right_assoc o); lia. Qed.
+
+Lemma follow_bare : forall pa P0 t,
+  1 <= pa ->
+  (forall o1, pa <= lvl_bin o1 -> P0 <= rp o1) ->
+  (forall u, pa <= lvl_un u -> P0 <= lvl_un u) ->
+  refused P0 t = true -> chain_tok t = false ->
+  forall a, pa <= lvl a -> follow a t = true.
+Proof.
+  intros pa P0 t Hpa Fb Fu Hr Hn.
+  pose proof (chain_tok_lparen _ Hn) as Hl.
+  induction a; cbn [follow lvl]; intros Hlv; try reflexivity.
+  - rewrite Hn; reflexivity.
+  - rewrite Hn; reflexivity.
+  - destruct (is_chain a1); [rewrite Hn|]; reflexivity.
+  - rewrite (refused_mono _ _ _ Hr (Fu u Hlv)). cbn [andb].
+    destruct ((lvl a <? lvl_un u) || starts_unary (raw a)) eqn:E; [reflexivity|].
+    apply orb_false_elim in E. destruct E as [E _]. apply Nat.ltb_ge in E. apply IHa. lia.
+  - rewrite (refused_mono _ _ _ Hr (Fb o Hlv)). cbn [andb].
+    destruct (lvl a2 <? rp o) eqn:E; [reflexivity|].
+    apply Nat.ltb_ge in E. apply IHa2. pose proof (rp_ge o). lia.
+  - rewrite (refused_mono _ _ _ Hr (Fb OIn Hlv)). cbn [andb].
+    destruct (lvl a2 <? rp OIn) eqn:E; [reflexivity|].
+    apply Nat.ltb_ge in E. apply IHa2. pose proof (rp_ge OIn). cbn in *. lia.
+  - destruct kw; [rewrite Hl|]; reflexivity.
+  - destruct kw; [rewrite Hl|]; reflexivity.
+  - unfold lvl_tern in Hlv. lia.
+Qed.
+
+Lemma fact_bin : forall o o1, lp o <= lvl_bin o1 -> S (lvl_bin o) <= rp o1.
+Proof. destruct o, o1; cbn; lia. Qed.
+Lemma fact_un : forall o u, lp o <= lvl_un u -> S (lvl_bin o) <= lvl_un u.
+Proof. destruct o, u; cbn; lia. Qed.
+Lemma lp_pos : forall o, 1 <= lp o.
+Proof. destruct o; cbn; lia. Qed.
+Lemma chain_tok_bop : forall o, chain_tok (tok_bop o) = false.
+Proof. destruct o; reflexivity. Qed.
+Lemma refused_bop : forall o, refused (S (lvl_bin o)) (tok_bop o) = true.
+Proof. intros o. unfold refused. rewrite classify_bop. apply Nat.ltb_lt. lia. Qed.
+
+(* a bare left operand of `o` is not disturbed by the operator token *)
+Lemma follow_left_bop : forall o a, lp o <= lvl a -> follow a (tok_bop o) = true.
+Proof.
+  intros o a H.
+  apply (follow_bare (lp o) (S (lvl_bin o))); auto using lp_pos, fact_bin, fact_un, refused_bop, chain_tok_bop.
+Qed.
+
+Lemma follow_left_not : forall a, lp OIn <= lvl a -> follow a (TIdent (s2l "not")) = true.
+Proof.
+  intros a H.
+  apply (follow_bare (lp OIn) (S (lvl_bin OIn))); auto using lp_pos, fact_bin, fact_un.
+Qed.
+
+Lemma follow_left_if : forall a, S lvl_tern <= lvl a -> follow a (TIdent (s2l "if")) = true.
+Proof.
+  intros a H.
+  apply (follow_bare 1 1); auto.
+  all: try (intros o1 _; destruct o1; cbn; lia).
+Qed.
+
+(* ------------------------------------------------------------------ strings *)
+Lemma str_eqb_eq : forall a b : str, str_eqb a b = true <-> a = b.
+Proof.
+  unfold str_eqb. induction a as [|x a IH]; destruct b as [|y b]; cbn; split; intros H; try reflexivity; try discriminate.
+  - apply andb_prop in H. destruct H as [H1 H2]. apply N.eqb_eq in H1. apply IH in H2. congruence.
+  - inversion H; subst. rewrite N.eqb_refl. cbn. apply IH. reflexivity.
+Qed.
+
+Lemma nodup_names_NoDup : forall l, nodup_names l = true -> NoDup l.
+Proof.
+  induction l as [|x l IH]; cbn; intros H; constructor.
+  - apply andb_prop in H. destruct H as [H _]. intros Hin.
+    assert (existsb (str_eqb x) l = true).
+    { apply existsb_exists. exists x. split; [exact Hin|]. apply str_eqb_eq. reflexivity. }
+    rewrite H0 in H. discriminate.
+  - apply andb_prop in H. destruct H as [_ H]. auto.
+Qed.
+
+Lemma kw_mem_false : forall n (acc : list (str * expr)), ~ In n (map fst acc) -> kw_mem n acc = false.
+Proof.
+  intros n acc H. unfold kw_mem. destruct (existsb _ acc) eqn:E; [|reflexivity].
+  apply existsb_exists in E. destruct E as (p & Hin & Heq). apply str_eqb_eq in Heq. subst.
+  exfalso. apply H. apply in_map. exact Hin.
+Qed.
+
+(* ------------------------------------------------------------------ unfolding lemmas *)
+Lemma loop_S : forall bp maxb P c min k neg lhs t ts1,
+  loop bp maxb P c min (S k) neg lhs (t :: ts1) =
+  match classify t with
+  | LBreak => Some (lhs, t :: ts1)
+  | LNot =>
+      if lbp bp OIn <? min then Some (lhs, t :: ts1) else
+      match hd_kw ts1 with KIn => loop bp maxb P c min k true lhs ts1 | _ => None end
+  | LSub =>
+      match parse_subscript maxb P c lhs (t :: ts1) with
+      | Some (e, ts2) => loop bp maxb P c min k neg e ts2
+      | None => None
+      end
+  | LIf =>
+      if tern_l bp <? min then Some (lhs, t :: ts1) else
+      match P c 0 ts1 with
+      | Some (cnd, ts2) =>
+          match hd_kw ts2 with
+          | KElse => match P c 0 (tl ts2) with
+                     | Some (f, ts3) => Some (ETern cnd lhs f, ts3)
+                     | None => None
+                     end
+          | _ => None
+          end
+      | None => None
+      end
+  | LOp o =>
+      if lbp bp o <? min then Some (lhs, t :: ts1) else
+      let isnot := bop_eqb o OIs && (match hd_kw ts1 with KNot => true | _ => false end) in
+      let neg1 := if isnot then true else neg in
+      let ts2 := if isnot then tl ts1 else ts1 in
+      let r :=
+        if bop_eqb o OIs then
+          match parse_named P c ts2 with
+          | Some (n, kw, ts3) => Some (ETest lhs n kw, ts3) | None => None end
+        else if bop_eqb o OPipe then
+          match parse_named P c ts2 with
+          | Some (n, kw, ts3) => Some (EFilter lhs n kw, ts3) | None => None end
+        else
+          match P c (rbp bp o) ts2 with
+          | Some (rhs, ts3) =>
+              if is_concat o && is_unary rhs then None else Some (EBin o lhs rhs, ts3)
+          | None => None
+          end in
+      match r with
+      | None => None
+      | Some (e, ts3) => loop bp maxb P c min k false (if neg1 then EUn UNot e else e) ts3
+      end
+  end.
+Proof. reflexivity. Qed.
+
+Lemma wrap_len : forall p l ts, List.length ts <= List.length (wrap p l ts).
+Proof.
+  intros. unfold wrap, paren. destruct (l <? p); cbn; [rewrite app_length; cbn|]; lia.
+Qed.
+
+Lemma spine_le : forall s, spine s <= List.length (raw s).
+Proof.
+  induction s; cbn [spine raw]; try lia.
+  - destruct (is_chain s1); [lia|].
+    rewrite app_length. pose proof (wrap_len lvl_atom (lvl s1) (raw s1)).
+    destruct (lvl s1 <? lvl_atom); cbn [List.length app]; rewrite ?app_length; cbn; lia.
+  - rewrite app_length. pose proof (wrap_len (lp o) (lvl s1) (raw s1)).
+    destruct (lvl s1 <? lp o); cbn [List.length]; lia.
+  - rewrite app_length. pose proof (wrap_len (lp OIn) (lvl s1) (raw s1)).
+    destruct (lvl s1 <? lp OIn); cbn [List.length]; lia.
+  - rewrite app_length. pose proof (wrap_len (lp OIs) (lvl s) (raw s)).
+    destruct (lvl s <? lp OIs); cbn [List.length]; lia.
+  - rewrite app_length. pose proof (wrap_len (lp OPipe) (lvl s) (raw s)).
+    destruct (lvl s <? lp OPipe); cbn [List.length]; lia.
+  - rewrite app_length. pose proof (wrap_len (S lvl_tern) (lvl s2) (raw s2)).
+    destruct (lvl s2 <? S lvl_tern); cbn [List.length]; lia.
+Qed.
+
+Lemma need_pos : forall s, 1 <= need s.
+Proof.
+  destruct s; cbn [need]; try lia.
+  - induction s; cbn [need]; try lia.
+Qed.
+
+(* ------------------------------------------------------------------ the round trip *)
+Ltac hdis :=
+  repeat match goal with
+  | |- context [hd_is (?t :: ?r) ?b] =>
+      first [ change (hd_is (t :: r) b) with true | change (hd_is (t :: r) b) with false ]
+  | |- context [tis ?t ?b] =>
+      first [ change (tis t b) with true | change (tis t b) with false ]
+  end; cbv beta iota; cbn [tl orb andb].
+
+Section RoundTrip.
+Variable bp : bp_table.
+Hypothesis Hwf : wf_bp bp = true.
+Variable maxb maxdim : nat.
+
+Notation PA := (parse bp maxb maxdim).
+Notation LOOP d := (loop bp maxb (parse bp maxb maxdim d)).
+Notation BODYK d := (body_k bp maxb maxdim (parse bp maxb maxdim d)).
+
+Lemma PA_S : forall d c min ts,
+  PA (S d) c min ts = BODYK d c min (S (List.length ts)) ts.
+Proof. reflexivity. Qed.
+
+Definition fits (s : sx) (c : nat * nat) : Prop := fst c + needb s <= maxb.
+
+(* parsing the bare text of s, in a frame that accepts level p <= lvl s *)
+Definition TBp (s : sx) : Prop := forall d c min p ts,
+  thr_ok bp min p = true -> p <= lvl s -> printable s = true -> need s <= d -> fits s c ->
+  refusedL p ts = true -> followL s ts = true ->
+  PA d c min (raw s ++ ts) = Some (desugar s, ts).
+
+(* main lemma: the frame that reads `raw s` ends up in its operator loop with lhs = s *)
+Definition MLp (s : sx) : Prop := forall d c min p k R ts,
+  thr_ok bp min p = true -> p <= lvl s -> printable s = true -> need s <= S d -> fits s c ->
+  followL s ts = true ->
+  LOOP d c min k false (desugar s) ts = Some R ->
+  BODYK d c min (k + spine s) (raw s ++ ts) = Some R.
+
+Definition TPp (s : sx) : Prop := forall d c min p ts,
+  thr_ok bp min p = true -> printable s = true -> S (need s) <= d -> fits s c ->
+  refusedL p ts = true ->
+  PA d c min (paren (raw s) ++ ts) = Some (desugar s, ts).
+
+Definition TOPp (s : sx) : Prop := forall d c min p ts,
+  thr_ok bp min p = true -> printable s = true -> needw p (lvl s) (need s) <= d -> fits s c ->
+  refusedL p ts = true -> (lvl s <? p = false -> followL s ts = true) ->
+  PA d c min (wrap p (lvl s) (raw s) ++ ts) = Some (desugar s, ts).
+
+Lemma tb_of_ml : forall s, MLp s -> TBp s.
+Proof.
+  intros s ML d c min p ts Hthr Hp Hpr Hn Hf Hr Hfo.
+  destruct d as [|d]; [pose proof (need_pos s); lia|].
+  rewrite PA_S.
+  pose proof (spine_le s) as Hs.
+  set (K := S (List.length (raw s ++ ts))).
+  assert (HK : K = (K - spine s) + spine s).
+  { subst K. rewrite app_length. lia. }
+  rewrite HK. eapply ML; eauto.
+  assert (exists k', K - spine s = S k') as [k' Hk'].
+  { subst K. rewrite app_length. exists (List.length (raw s) + List.length ts - spine s). lia. }
+  rewrite Hk'. eapply loop_stop; eauto.
+Qed.
+
+Lemma closerL_refusedL : forall p ts, closerL ts = true -> refusedL p ts = true.
+Proof. intros p [|t ts] H; [reflexivity|]. cbn in *. apply closer_refused; exact H. Qed.
+Lemma closerL_followL : forall s ts, closerL ts = true -> followL s ts = true.
+Proof. intros s [|t ts] H; [reflexivity|]. cbn in *. apply follow_closer; exact H. Qed.
+
+Ltac side :=
+  first [ exact (wf_thr0 _ Hwf) | assumption | lia | reflexivity
+        | apply closerL_followL; reflexivity | apply closerL_refusedL; reflexivity ].
+
+Lemma tp_of_tb : forall s, TBp s -> TPp s.
+Proof.
+  intros s TB d c min p ts Hthr Hpr Hn Hf Hr.
+  destruct d as [|d]; [lia|].
+  rewrite PA_S. unfold paren. cbn [app]. rewrite <- app_assoc. cbn [app].
+  unfold body_k. unfold Pratt.prefix.
+  rewrite (TB d c 0 0 (TRParen :: ts)); try solve [side].
+  hdis.
+  eapply loop_stop; eauto.
+Qed.
+
+Lemma top_of : forall s, TBp s -> TOPp s.
+Proof.
+  intros s TB d c min p ts Hthr Hpr Hn Hf Hr Hfo.
+  unfold wrap, needw in *. destruct (lvl s <? p) eqn:E.
+  - eapply (tp_of_tb s TB); eauto.
+  - apply Nat.ltb_ge in E. eapply TB; eauto.
+Qed.
+
+(* the left operand of a spine item, bare or parenthesised *)
+Lemma left_op : forall a pa, MLp a -> TBp a ->
+  forall d c min p k R ts,
+  thr_ok bp min p = true -> p <= pa -> printable a = true ->
+  needw pa (lvl a) (need a) <= S d -> fits a c ->
+  (lvl a <? pa = false -> followL a ts = true) ->
+  LOOP d c min k false (desugar a) ts = Some R ->
+  BODYK d c min (k + (if lvl a <? pa then 0 else spine a)) (wrap pa (lvl a) (raw a) ++ ts) = Some R.
+Proof.
+  intros a pa ML TB d c min p k R ts Hthr Hp Hpr Hn Hf Hfo HL.
+  unfold wrap, needw in *. destruct (lvl a <? pa) eqn:E.
+  - unfold paren. cbn [app]. rewrite <- app_assoc. cbn [app].
+    unfold body_k. unfold Pratt.prefix.
+    rewrite (TB d c 0 0 (TRParen :: ts)); try solve [side].
+    hdis. rewrite Nat.add_0_r. exact HL.
+  - apply Nat.ltb_ge in E. eapply ML; eauto. lia.
+Qed.
+
+Lemma infix_not_is : forall o, infix o = true -> bop_eqb o OIs = false /\ bop_eqb o OPipe = false.
+Proof. destruct o; cbn; intros; try discriminate; auto. Qed.
+
+Lemma starts_unary_false : forall t r r',
+  starts_unary (t :: r) = false ->
+  hd_is (t :: r') TMinus = false /\ hd_kw (t :: r') <> KNot.
+Proof.
+  intros t r r' H. destruct t; cbn in *; try discriminate; split; try reflexivity; try discriminate.
+  destruct (kw_of s); try discriminate; congruence.
+Qed.
+
+Lemma ml_const : forall c, MLp (SConst c).
+Proof.
+  intros c d cc min p k R ts Hthr Hp Hpr Hn Hf Hfo HL.
+  cbn [printable] in Hpr. cbn [spine raw desugar] in *. rewrite Nat.add_0_r.
+  destruct c; try discriminate; cbn [tok_const app]; unfold body_k, Pratt.prefix; try exact HL.
+Qed.
+
+Lemma ml_paren : forall e, TBp e -> MLp (SParen e).
+Proof.
+  intros e TB d c min p k R ts Hthr Hp Hpr Hn Hf Hfo HL.
+  cbn [printable need spine raw desugar] in *. unfold fits in *. cbn [needb] in Hf.
+  rewrite Nat.add_0_r. unfold paren. cbn [app]. rewrite <- app_assoc. cbn [app].
+  unfold body_k, Pratt.prefix.
+  rewrite (TB d c 0 0 (TRParen :: ts)); try solve [side].
+Qed.
+
+Lemma ml_un : forall u e, TBp e -> MLp (SUn u e).
+Proof.
+  intros u e TB d c min p k R ts Hthr Hp Hpr Hn Hf Hfo HL.
+  pose proof (tp_of_tb e TB) as TP.
+  cbn [printable need spine raw desugar] in *. unfold fits in *. cbn [needb] in Hf.
+  rewrite Nat.add_0_r.
+  assert (Hpre : Pratt.prefix bp maxb maxdim (PA d) c
+            ((tok_unop u :: (if (lvl e <? lvl_un u) || starts_unary (raw e) then paren (raw e) else raw e)) ++ ts)
+          = Some (EUn u (desugar e), ts)).
+  { assert (Hpu : forall rest, Pratt.prefix bp maxb maxdim (PA d) c (tok_unop u :: rest)
+                    = parse_unary bp (PA d) c u rest).
+    { intros rest. destruct u; reflexivity. }
+    cbn [app]. rewrite Hpu. unfold parse_unary.
+    destruct ts as [|t0 ts0] eqn:Ets.
+    - (* nothing follows *)
+      destruct ((lvl e <? lvl_un u) || starts_unary (raw e)) eqn:E.
+      + unfold paren. cbn [app]. hdis. change (hd_kw (TLParen :: (raw e ++ [TRParen]) ++ [])) with KPlain. cbv iota.
+        change (TLParen :: (raw e ++ [TRParen]) ++ []) with (paren (raw e) ++ []).
+        rewrite (TP d c (un_bp bp u) (lvl_un u) []); try solve [side]; auto using wf_thr_u; try lia.
+      + apply orb_false_elim in E. destruct E as [E1 E2]. apply Nat.ltb_ge in E1.
+        destruct (raw_hd e Hpr) as (t & r & Er & _). rewrite Er in E2.
+        destruct (starts_unary_false t r (r ++ []) E2) as [H1 H2].
+        assert (Hk : forall (X Y : pres), hd_kw (t :: r ++ []) <> KNot ->
+                 match hd_kw (t :: r ++ []) with KNot => X | _ => Y end = Y).
+        { intros X Y Hne. destruct (hd_kw (t :: r ++ [])); congruence. }
+        rewrite Er. cbn [app]. rewrite H1, Hk by exact H2.
+        change (t :: r ++ []) with ((t :: r) ++ []). rewrite <- Er.
+        rewrite (TB d c (un_bp bp u) (lvl_un u) []); try solve [side]; auto using wf_thr_u; try lia.
+    - cbn [followL follow] in Hfo. apply andb_prop in Hfo. destruct Hfo as [Hre Hfo].
+      destruct ((lvl e <? lvl_un u) || starts_unary (raw e)) eqn:E.
+      + unfold paren. cbn [app]. hdis.
+        change (hd_kw (TLParen :: (raw e ++ [TRParen]) ++ t0 :: ts0)) with KPlain. cbv iota.
+        change (TLParen :: (raw e ++ [TRParen]) ++ t0 :: ts0) with (paren (raw e) ++ t0 :: ts0).
+        rewrite (TP d c (un_bp bp u) (lvl_un u) (t0 :: ts0)); try solve [side]; auto using wf_thr_u; try lia.
+      + apply orb_false_elim in E. destruct E as [E1 E2]. apply Nat.ltb_ge in E1.
+        destruct (raw_hd e Hpr) as (t & r & Er & _). rewrite Er in E2.
+        destruct (starts_unary_false t r (r ++ t0 :: ts0) E2) as [H1 H2].
+        assert (Hk : forall (X Y : pres), hd_kw (t :: r ++ t0 :: ts0) <> KNot ->
+                 match hd_kw (t :: r ++ t0 :: ts0) with KNot => X | _ => Y end = Y).
+        { intros X Y Hne. destruct (hd_kw (t :: r ++ t0 :: ts0)); congruence. }
+        rewrite Er. cbn [app]. rewrite H1, Hk by exact H2.
+        change (t :: r ++ t0 :: ts0) with ((t :: r) ++ t0 :: ts0). rewrite <- Er.
+        rewrite (TB d c (un_bp bp u) (lvl_un u) (t0 :: ts0)); try solve [side]; auto using wf_thr_u; try lia. }
+  unfold body_k. rewrite Hpre. exact HL.
+Qed.
+
+Lemma max_le_l : forall a b c, Nat.max a b <= c -> a <= c. Proof. intros; lia. Qed.
+Lemma max_le_r : forall a b c, Nat.max a b <= c -> b <= c. Proof. intros; lia. Qed.
+
+Lemma ml_bin : forall o a b, MLp a -> TBp a -> TBp b -> MLp (SBin o a b).
+Proof.
+  intros o a b MLa TBa TBb d c min p k R ts Hthr Hp Hpr Hn Hf Hfo HL.
+  pose proof (top_of b TBb) as TOPb.
+  cbn [printable] in Hpr. apply andb_prop in Hpr. destruct Hpr as [Hpr Hpb].
+  apply andb_prop in Hpr. destruct Hpr as [Ho Hpa].
+  assert (Hinf : infix o = true) by (destruct o; cbn in *; try discriminate; reflexivity).
+  assert (Hcc : is_concat o && is_unary (desugar b) = false).
+  { destruct o; cbn in *; try reflexivity. destruct (is_unary (desugar b)); cbn in *; congruence. }
+  destruct (infix_not_is o Hinf) as [Hnis Hnpipe].
+  cbn [need] in Hn. unfold fits in *. cbn [needb] in Hf. cbn [lvl] in Hp.
+  cbn [raw spine desugar] in *.
+  rewrite <- app_assoc. cbn [app].
+  replace (k + S (if lvl a <? lp o then 0 else spine a)) with (S k + (if lvl a <? lp o then 0 else spine a)) by lia.
+  assert (Hfb : refusedL (rp o) ts = true /\ (lvl b <? rp o = false -> followL b ts = true)).
+  { destruct ts as [|t0 ts0]; [split; reflexivity|]. cbn [followL follow refusedL] in *.
+    apply andb_prop in Hfo. destruct Hfo as [H1 H2]. split; [exact H1|].
+    intros E. rewrite E in H2. exact H2. }
+  destruct Hfb as [Hrb Hfb].
+  eapply (left_op a (lp o) MLa TBa); eauto.
+  - pose proof (lp_ge o). lia.
+  - lia.
+  - unfold fits. lia.
+  - intros E. apply Nat.ltb_ge in E. cbn [followL]. apply follow_left_bop. exact E.
+  - rewrite loop_S, classify_bop.
+    rewrite (thr_bin _ _ _ o Hthr).
+    assert (E : lvl_bin o <? p = false) by (apply Nat.ltb_ge; lia). rewrite E.
+    rewrite Hnis, Hnpipe. cbn [andb]. cbv zeta.
+    rewrite (TOPb d c (rbp bp o) (rp o) ts); auto using wf_thr_r; try lia; try (unfold fits; lia).
+    rewrite Hcc. exact HL.
+Qed.
